@@ -326,6 +326,9 @@ func (st *State) load(p Value, t types.Type) Value {
 		v = readField(st.heap, x.Owner, x.Idx, x.Obj)
 	case ElemPtr:
 		v = readElem(st.heap, x.Elem, x.Ref, x.Idx)
+		for _, i := range x.Path {
+			v = v.(StructV).F[i]
+		}
 	case *Term:
 		if isPlainStruct(t) {
 			v = readStruct(st.heap, t, x)
@@ -356,6 +359,10 @@ func (st *State) store(p Value, t types.Type, v Value) {
 	case FieldPtr:
 		st.writeField(x.Owner, x.Idx, x.Obj, v)
 	case ElemPtr:
+		if len(x.Path) > 0 {
+			cur := readElem(st.heap, x.Elem, x.Ref, x.Idx)
+			v = setPath(cur, x.Path, v)
+		}
 		st.writeElem(x.Elem, x.Ref, x.Idx, v)
 	case *Term:
 		if isPlainStruct(t) {
